@@ -58,11 +58,13 @@ TECHNIQUE = ("Lean 4 proof: forward simulation with stuttering over the small-st
              "the SSA equations from checked dominance facts (Proofs/Opt/SSA), lock-step simulation for operand substitution "
              "(Proofs/Opt/Subst); translation validation of every real pass output by the verified checkers; differential "
              "correspondence model pass vs real pass; always-on before/after execution in the reference semantics")
-RULE = ("inputs: 23 hand-written corpus modules (every known finding, boundary shapes: critical edges, one-input phis, duplicate operand "
+RULE = ("inputs: 27 hand-written corpus modules + 2 mixed-width modules of 24 functions each (wide/narrow stores to one address, all "
+        "orders, separators, volatility; on a global and a stack slot) (every known finding, boundary shapes: critical edges, one-input phis, duplicate operand "
         "slots, aliasing stores, memcpy between store and load, constant comparisons at the boundary, signed/unsigned constant "
         "arithmetic, signed zeros, tail calls, promotable slots in loops), 8 C front-end modules, G-IR generated modules (6 quick / 32 "
         "thorough) of which 2/3 are pessimised (x+0, x*1, constant expressions with boundary operands whose value is subtracted again, "
-        "constant conditional jumps with a dead arm sharing the successor, values and phis demoted to stack slots); pipelines: each of "
+        "constant conditional jumps with a dead arm sharing the successor, values and phis demoted to stack slots, narrower stores of "
+        "the low bytes next to wide stores, stack slots copied to globals before every return); 9 C modules incl. union/char* punning; pipelines: each of "
         "the 9 passes alone and api.optimize at 0/1/2/s; 2-3 argument vectors per entry (boundary biased). distinct = distinct "
         "(module, pipeline, entry, arguments); non-trivial = the pipeline changed the module")
 TRUSTED = [
@@ -254,7 +256,66 @@ CORPUS = [
      {"f": [[5, 3], [8, 0], [-7, 6]]}),
 ]
 
+def mixed_width_corpus():
+    """wide and narrow accesses to ONE address value: every order, separator and volatility, on a global and on a
+    stack slot; the wide value is read back (and the global is compared byte by byte)"""
+    ARG = {"i32": [0x11223344, -2], "u32": [4000000000, 7], "i64": [0x1122334455667788, -2], "i16": [0x1234, -3]}
+    NARG = {"i8": [5, -128], "u8": [200, 0], "i16": [0x1234, -1], "u16": [65000, 1], "i32": [0x55667788, -7], "u32": [3, 4000000000]}
+    out = []
+    for target in ("glob", "slot"):
+        funcs, fixed, n = [], {}, 0
+        P = "@mw" if target == "glob" else "%p"
+        pre = "" if target == "glob" else "(alloc %s 8 8) (addrof %p %s) (const %z u64 0) (store u64 %z %p) "
+        combos = [("i32", "i8"), ("i64", "i16"), ("u32", "u8"), ("i32", "u16"), ("i64", "u32"), ("i16", "u8")]
+        scen = []
+        for W, N in combos:
+            scen += [(W, N, "WN", "none", "", ""), (W, N, "NW", "none", "", "")]
+        W, N = "i32", "i8"
+        for sep in ("load", "call", "copy"):
+            scen.append((W, N, "WN", sep, "", ""))
+        scen += [(W, N, "WN", "none", "v", ""), (W, N, "WN", "none", "", "v"), ("i64", "i8", "WN", "none", "v", "v"),
+                 (W, N, "WoN", "none", "", ""), ("i64", "u16", "WoN", "none", "", ""),
+                 ("i32", "u32", "WN", "none", "", ""), ("u32", "i32", "NW", "none", "", ""),
+                 (W, N, "WNN", "none", "", ""), (W, N, "WlN", "none", "", "")]
+        for (W, N, order, sep, v1, v2) in scen:
+            name = f"mw{n}_{order}_{W}_{N}_{sep}{v1}{v2}"
+            n += 1
+            sw = f"({v1}store {W} %a1 {P})"
+            sn = f"({v2}store {N} %b {P})"
+            sepi = {"none": "", "load": f" (load %t {N} {P})", "call": " (pcall @mwext)",
+                    "copy": f" (copyblob @mwh {P} 4)"}[sep]
+            if order == "WN":
+                body = f"{sw}{sepi} {sn}"
+            elif order == "NW":
+                body = f"{sn}{sepi} {sw}"
+            elif order == "WoN":
+                body = f"{sw} (const %o ptr 1) (binop %q ptr add {P} %o) ({v2}store {N} %b %q)"
+            elif order == "WNN":
+                body = f"{sw} {sn} (store {N} %b {P})"
+            else:  # wide store, narrow load, narrow store of the loaded value + b
+                body = f"{sw} (load %t {N} {P}) (binop %u {N} add %t %b) (store {N} %u {P})"
+            funcs.append(f"(func {name} global {W} e (params (a {W}) (b {N})) (blocks (block e "
+                         f"(const %one {W} 1) (binop %a1 {W} add %a %one) {pre}{body} (load %r {W} {P}) (ret %r))))")
+            fixed[name] = [[x, y] for x, y in zip(ARG[W], NARG[N])]
+        text = K("mw_" + target, " ".join(funcs),
+                 vars_=" (var mw global 8 8) (var mwh global 8 8)", externs=" (xproc mwext ())")
+        out.append(("mixed-width-" + target, text, fixed))
+    return out
+
+
 C_EXTRA = {
+    "punning": ("""
+union U { int i; char c; short s; unsigned char b[4]; };
+union U gu;
+int pun1(int a, int b) { union U u; u.i = a; u.c = b; return u.i; }
+int pun2(int a, int b) { union U u; u.c = b; u.i = a; return u.i; }
+int pun3(int a, int b) { union U u; u.i = a; u.s = b; return u.i + u.c; }
+int pun4(int a, int b) { gu.i = a; gu.c = b; return gu.i + gu.b[1]; }
+int pun5(int a, int b) { union U u; u.i = a; u.b[0] = b; u.b[2] = a; return u.i; }
+int alias1(int a, int b) { int x = a; char *p = (char*)&x; *p = b; return x; }
+int alias2(int a, int b) { int x = a; char *p = (char*)&x; p[1] = b; p[0] = a; return x; }
+int alias3(int a, int b) { int x; short *q = (short*)&x; x = a; *q = b; return x; }
+""", ["pun1", "pun2", "pun3", "pun4", "pun5", "alias1", "alias2", "alias3"]),
     "structcopy": ("""
 struct S { int x; int y; };
 int sc(int a, int b) { struct S s; struct S t; t.x = b; t.y = 1; s.y = 2; s.x = a; s = t; return s.x; }
@@ -311,7 +372,7 @@ def gen_texts(ctx, n):
         if mode == 1:
             cnt = T.pessimize(ctx.rng, tree)
         elif mode == 2:
-            cnt = T.pessimize(ctx.rng, tree, addzero=5, cjump=4, demote=4, demote_phi=2, constexpr=6)
+            cnt = T.pessimize(ctx.rng, tree, addzero=5, cjump=4, demote=4, demote_phi=2, constexpr=6, punstore=4, expose=2)
         else:
             cnt = {}
         for kk, v in cnt.items():
@@ -617,6 +678,7 @@ def check(ctx):
     every = SINGLE + LEVELS
     some = every if ctx.thorough else SINGLE + ["O2"]
     inputs = [(f"corpus:{n}", t, None, fx, every) for n, t, fx in CORPUS]
+    inputs += [(f"corpus:{n}", t, None, fx, ["las"] + LEVELS) for n, t, fx in mixed_width_corpus()]
     inputs += [(tag, text, only, None, some) for tag, text, only in c_texts()]
     ngen = 32 if ctx.thorough else 6
     inputs += [(tag, text, None, None, some) for tag, text, _ in gen_texts(ctx, ngen)]
